@@ -271,6 +271,8 @@ def impl_oracle(c):
         return "truncated frame decoded without error"
     if c["stream"] == "tail" and o.get("err") == "ok":
         return "trailing bytes not reported"
+    if c["stream"] == "tail-accepted" and o.get("err") == "ok":
+        return "trailing bytes accepted: a request frame of type %s followed by stray bytes was taken as a complete request" % o.get("typ")
     return None
 
 def big_sizes():
@@ -313,7 +315,8 @@ def explore(ck, binp, seed, ncases, model_ok, first):
         if why and c.get("shape"):
             why += " (reader behaviour: %s)" % c["shape"]
         if why:
-            ck.violation("impl:%s:%s" % (c["stream"], why.split(":")[0].split(" (reader")[0]), why,
+            ck.violation("impl:tail-accepted" if c["stream"] == "tail-accepted" else
+                         "impl:%s:%s" % (c["stream"], why.split(":")[0].split(" (reader")[0]), why,
                          {"case": c, "expected": "error value without crash, allocation proportional to input",
                           "observed": c["obs"]})
     if first:
